@@ -116,6 +116,21 @@ var (
 		name: "sequence",
 		docs: "built-in sequence class",
 	}
+	listClass = BuiltInClass{
+		name:    "list",
+		docs:    "built-in list class",
+		inherit: &sequenceClass,
+	}
+	consClass = BuiltInClass{
+		name:    "cons",
+		docs:    "built-in cons class",
+		inherit: &listClass,
+	}
+	nullClass = BuiltInClass{
+		name:    "null",
+		docs:    "built-in null class, the class of nil",
+		inherit: &listClass,
+	}
 	arrayClass = BuiltInClass{
 		name:    "array",
 		docs:    "built-in array class",
@@ -223,6 +238,9 @@ func defBuiltIns() {
 		&longFloatClass,
 		&ratioClass,
 		&sequenceClass,
+		&listClass,
+		&consClass,
+		&nullClass,
 		&arrayClass,
 		&vectorClass,
 		&stringClass,
